@@ -295,6 +295,36 @@ pub fn corpus<G: GroupApi>(tier: Tier, seed: u64) -> Corpus {
             push(&mut set, &mut items, *f, v);
         }
     }
+    // structured OFF-curve points that still pass an order test: the a = 0 point formulas never use b, so
+    // (s^2 x, s^3 y) - a Jacobian representative with its z dropped - has order r on y^2 = x^3 + b s^6, and a point
+    // of E(F_q) read as F_q2 coordinates has order r on y^2 = x^3 + 5. A decoder that checks the order but not
+    // the curve equation accepts exactly these.
+    {
+        let mut scales: Vec<G::RF> = vec![G::RF::small(2), G::RF::small(3), G::rf_generic(seed, 3)];
+        scales.extend(G::extra_scales(seed));
+        for d in ds.iter().take(3) {
+            if let Some((x, y)) = ref_mul::<G>(d).xy() {
+                for sc in &scales {
+                    let s2 = sc.sq();
+                    let pt = Pt::Aff(s2.mul(x), s2.mul(sc).mul(y));
+                    for f in Fmt::ALL {
+                        push(&mut set, &mut items, f, G::ref_encode(&pt, f).unwrap());
+                    }
+                }
+            }
+            let (ox, oy): (N, N) = if G::NAME == "G2" {
+                let (x, y) = ref_mul::<G1>(d).xy().map(|(x, y)| (x.0.clone(), y.0.clone())).unwrap();
+                (x, y)
+            } else {
+                let (x, y) = ref_mul::<G2>(d).xy().map(|(x, y)| (x.a.clone(), y.a.clone())).unwrap();
+                (x, y)
+            };
+            let pt = Pt::Aff(G::rf_from_n(&ox), G::rf_from_n(&oy));
+            for f in Fmt::ALL {
+                push(&mut set, &mut items, f, G::ref_encode(&pt, f).unwrap());
+            }
+        }
+    }
     // both prefixes with the "wrong" parity are valid encodings of -P: included through d and r-d.
     if G::NAME == "G2" {
         // points of the twist outside the subgroup, in every format
@@ -515,7 +545,7 @@ pub fn c09_run(run: &Run) {
             x += n(1);
         }
     }
-    for x in 0..run.tier.pick(64u64, 1024) {
+    for x in 0..run.tier.pick(64u64, 8192) {
         let y2 = (n(x).modpow(&n(3), p) + n(5)) % p;
         match refmodel::sqrt_mod(&y2, p) {
             Some(y) => {
@@ -566,31 +596,44 @@ pub fn c09_run(run: &Run) {
         }
     }
     let h = &c.twist_cof;
-    let tw = twist_points(run.tier.pick(4, 32));
+    let tw = twist_points(run.tier.pick(4, 128));
     let smalls = ds.iter().take(3).map(|d| ref_mul::<G2>(d)).collect::<Vec<_>>();
-    let mut n_small_order = 0;
-    for (i, t) in tw.iter().enumerate() {
-        // the construction is self-checking: the twist has order r*(2q-r)
-        assert!(ec_mul(t, &c.twist_order).is_inf(), "twist order");
-        let mut add = |pt: Pt<F2>, what: String| {
-            if let Pt::Aff(x, y) = pt {
-                g2c.push((x, y, what));
-            }
-        };
-        add(t.clone(), format!("twist point #{}", i));
-        add(ec_mul(t, h), format!("cofactor-cleared twist point #{}", i));
-        for (f, nm) in [(13u64, "13"), (1621, "1621"), (13 * 1621, "13*1621")] {
-            let k = &c.twist_order / n(f);
-            let sp = ec_mul(t, &k);
-            if !sp.is_inf() {
-                n_small_order += 1;
-                for s in &smalls {
-                    add(ec_add(s, &sp), format!("subgroup point + point of order dividing {} (#{})", nm, i));
+    // (the candidates of one twist point are independent of the others: built in parallel, kept in order)
+    use rayon::prelude::*;
+    let per_tw: Vec<(Vec<(F2, F2, String)>, usize)> = tw
+        .par_iter()
+        .enumerate()
+        .map(|(i, t)| {
+            let mut out: Vec<(F2, F2, String)> = vec![];
+            let mut n_small = 0usize;
+            // the construction is self-checking: the twist has order r*(2q-r)
+            assert!(ec_mul(t, &c.twist_order).is_inf(), "twist order");
+            let mut add = |pt: Pt<F2>, what: String| {
+                if let Pt::Aff(x, y) = pt {
+                    out.push((x, y, what));
                 }
+            };
+            add(t.clone(), format!("twist point #{}", i));
+            add(ec_mul(t, h), format!("cofactor-cleared twist point #{}", i));
+            for (f, nm) in [(13u64, "13"), (1621, "1621"), (13 * 1621, "13*1621")] {
+                let k = &c.twist_order / n(f);
+                let sp = ec_mul(t, &k);
+                if !sp.is_inf() {
+                    n_small += 1;
+                    for s in &smalls {
+                        add(ec_add(s, &sp), format!("subgroup point + point of order dividing {} (#{})", nm, i));
+                    }
+                }
+                add(sp, format!("point of order dividing {} from twist point #{}", nm, i));
             }
-            add(sp, format!("point of order dividing {} from twist point #{}", nm, i));
-        }
-        add(ec_mul(t, r()), format!("r * twist point #{} (order divides the cofactor)", i));
+            add(ec_mul(t, r()), format!("r * twist point #{} (order divides the cofactor)", i));
+            (out, n_small)
+        })
+        .collect();
+    let mut n_small_order = 0;
+    for (v, k) in per_tw {
+        g2c.extend(v);
+        n_small_order += k;
     }
     run.note("c09_small_order_points", json!(n_small_order));
     let n2 = g2c.len() as u64;
@@ -629,7 +672,7 @@ pub fn c09_meta(run: &Run) -> Meta {
                reference's big-scalar multiplication; the twist order r(2q-r) is asserted on every twist point."
             .into(),
         engine: "sm9mc-grid".into(),
-        bounds: json!({"twist_points": run.tier.pick(4, 32)}),
+        bounds: json!({"twist_points": run.tier.pick(4, 128), "every_small_x_below": run.tier.pick(64, 8192)}),
         assumptions: vec![],
     }
 }
